@@ -43,11 +43,11 @@ func keyOf(b []byte) msgKey {
 
 // chanSide tracks one direction of one session.
 type chanSide struct {
-	mu      sync.Mutex
-	name    string
-	sent    map[msgKey]int // written and not yet received
-	nSent   int
-	nRecv   int
+	mu    sync.Mutex
+	name  string
+	sent  map[msgKey]int // written and not yet received
+	nSent int
+	nRecv int
 	// stream mode (fault-free configuration): a single writer uses Write with
 	// sizes beyond one packet; the reader's concatenation must equal the writer's.
 	stream     bool
